@@ -1064,6 +1064,67 @@ func main() {
 	}
 
 	lap("A2")
+	// ---- phase A3: loggers whose lineage starts at a no-op logger (zap.NewNop(), zap.New(nil), the default
+	// zap.L()) and that are switched on afterwards with WrapCore: same expectations as for zap.New - a stack
+	// exactly where a configured AddStacktrace threshold enables the level (none configured: never), the caller
+	// exactly when AddCaller was given
+	{
+		w := newWorker()
+		w.wantSamp = 1
+		type nopBase struct {
+			name string
+			mk   func() *zap.Logger
+		}
+		bases := []nopBase{
+			{"zap.NewNop()", zap.NewNop},
+			{"zap.New(nil)", func() *zap.Logger { return zap.New(nil) }},
+			{"zap.L() (the default global)", zap.L},
+		}
+		for _, b := range bases {
+			for ti := range everyThr {
+				thr := &everyThr[ti]
+				for _, withCaller := range []bool{false, true} {
+					opts := []zap.Option{zap.WrapCore(func(zapcore.Core) zapcore.Core { return capCore{w.sk} }), zap.WithFatalHook(zapcore.WriteThenPanic)}
+					if withCaller {
+						opts = append(opts, zap.AddCaller())
+					}
+					if thr.opt != nil {
+						opts = append(opts, thr.opt)
+					}
+					l := b.mk().WithOptions(opts...)
+					for _, variant := range []string{"", "With+Named child", "Sugar"} {
+						lg := l
+						var sg *zap.SugaredLogger
+						sites := loggerSites
+						switch variant {
+						case "With+Named child":
+							lg = l.With(zap.Int("k", 1)).Named("n")
+						case "Sugar":
+							sg = l.Sugar()
+							sites = sugarSites
+						}
+						for _, st := range sites {
+							for _, lvl := range levelsOf(st) {
+								c := &call{st: st, l: lg, s: sg, lvl: lvl, r: w.r}
+								w.sk.reset()
+								c.run(0)
+								rel := "level<threshold"
+								if thr.en(lvl) {
+									rel = "level>=threshold"
+								}
+								w.check(c, &caseCfg{phase: "nop-lineage", st: st, skip: 0, stackSkip: 0, wantCall: withCaller, wantStack: thr.en(lvl), lvlName: lvl.String(), stackCfg: thr.name, rel: rel, fieldSkip: -1, wantPanic: zapPanics(lvl),
+									desc:   fmt.Sprintf("%s.WithOptions(WrapCore(...), AddCaller=%v, %s) %s", b.name, withCaller, thr.name, variant),
+									replay: map[string]any{"base": b.name, "variant": variant}})
+							}
+						}
+					}
+				}
+			}
+		}
+		collect("A3-nop-lineage", 0, w)
+	}
+
+	lap("A3")
 	// ---- phase B: stack depth x threshold x level x method x skip x caller on/off
 	type dcase struct {
 		D      int
@@ -1553,7 +1614,7 @@ func main() {
 		"distinct_nontrivial": len(classes),
 		"rule": fmt.Sprintf("every kind-correct chain of length <=%d over {Sugar, Desugar, With, WithLazy, Named, WithOptions(), WithOptions(AddCallerSkip(1)), WithOptions(AddCallerSkip(-1)) [running total may be negative, final total >= 0]} x every generated *Logger / *SugaredLogger logging method (level-parameter methods at all 7 levels, Check+Write) x base AddCallerSkip 0..3 x stack off/on; "+
 			"captured depth %s (+ goroutine-entry sites) x 8 level thresholds x 7 levels x every method x skip 0..3 x AddCaller on/off, incl. std-log bridge, zap.Stack/StackSkip fields and zapslog with 9 slog levels; all 128 level subsets as stack enabler; "+
-			"every generated method again from call sites reached through one or two inlinable helper functions (the reported frame is an inlined frame), skip 0..2, stack off/on; NewStdLog/NewStdLogAt/RedirectStdLog/RedirectStdLogAt (7 levels) x every print method and zap.L()/zap.S() over chains of length <=%d; slog With/WithGroup chains <=%d x 10 thresholds; path alphabet for TrimmedPath. "+
+			"every generated method on loggers whose lineage starts at NewNop() / New(nil) / the default L() and that are switched on with WrapCore (8 thresholds x caller on/off x plain, With+Named child, Sugar); every generated method again from call sites reached through one or two inlinable helper functions (the reported frame is an inlined frame), skip 0..2, stack off/on; NewStdLog/NewStdLogAt/RedirectStdLog/RedirectStdLogAt (7 levels) x every print method and zap.L()/zap.S() over chains of length <=%d; slog With/WithGroup chains <=%d x 10 thresholds; path alphabet for TrimmedPath. "+
 			"distinct = distinct (phase, method, level, configured skip, stack configuration, caller on/off, captured depth) tuples and distinct path inputs; every one executes a real log call whose entry is compared",
 			maxLen, depthDesc(depthList), stdLen, slogLen),
 		"samples":                samples,
